@@ -199,11 +199,56 @@ class WriteLevel(Task):
         ctx.oblige("post.level-header-text", str_eq(ex, got, exp_text), "P", note=repr(got)[:300])
 
 
+class BoxListed(FragmentTask):
+    """interpolate_bylevel, the statements deciding whether a box read for the slice becomes a box of the 2D plotfile: the box is
+    listed (once, with its header) exactly when the plane MEETS it - its closed extent along the normal contains the position
+    (a plane on the face shared by two boxes meets both) - for any position, extent and normal."""
+    prop = "C16"
+    reach = "U"
+    qual = "amr_kitchen.mandoline.mandoline.Mandoline.interpolate_bylevel"
+    first = staticmethod(FragmentTask.assigns("box_lo"))
+    last = staticmethod(lambda s: s.__class__.__name__ == "If" and "lv_box_indexes" in __import__("ast").unparse(s))
+
+    def __init__(self, cn):
+        self.cn = cn
+        self.name = f"interpolate_bylevel.box-listed-iff-the-plane-meets-it[normal={cn}]"
+
+    def setup(self, ex):
+        ctx = ex.ctx
+        lo, hi, pos = z3.Real("box_lo_n"), z3.Real("box_hi_n"), z3.Real("pos")
+        glo, ghi = z3.Real("geo_lo_n"), z3.Real("geo_hi_n")
+        ctx.assume(z3.And(glo <= lo, lo < hi, hi <= ghi, glo <= pos, pos <= ghi))
+        bounds = [[z3.Real(f"o_lo{d}"), z3.Real(f"o_hi{d}")] for d in range(3)]
+        bounds[self.cn] = [lo, hi]
+        gh = [z3.Real(f"gh{d}") for d in range(3)]
+        gl = [z3.Real(f"gl{d}") for d in range(3)]
+        gh[self.cn], gl[self.cn] = ghi, glo
+        hdr = Opaque("header_of_the_box", "obj")
+        self_ = Record("amr_kitchen.mandoline.mandoline.Mandoline", boxes=[[None, None, bounds]], pos=pos, cn=self.cn, geo_high=gh, geo_low=gl)
+        frame = {"self": self_, "lv": 0, "output": (None, None, hdr, 2), "lv_box_headers": {}, "lv_box_indexes": []}
+        return {"frame": frame, "lo": lo, "hi": hi, "pos": pos, "hdr": hdr}
+
+    def post(self, ex, inp, out):
+        ctx = ex.ctx
+        ctx.oblige("raises-nothing", out.kind == "ret", "P", note=str(out.exc) if out.kind != "ret" else "")
+        if out.kind != "ret":
+            return
+        ids, hd = out.value["lv_box_indexes"], out.value["lv_box_headers"]
+        meets = z3.And(inp["lo"] <= inp["pos"], inp["pos"] <= inp["hi"])
+        listed = len(ids) == 1 and veq(ctx, ids[0], 2) is True and len(hd) == 1 and list(hd.values())[0] is inp["hdr"]
+        nothing = len(ids) == 0 and len(hd) == 0
+        ctx.structure("post.listed-once-or-not-at-all", listed or nothing)
+        if listed:
+            ctx.oblige("post.listed-only-if-the-plane-meets-the-box", meets, "P")
+        elif nothing:
+            ctx.oblige("post.a-box-the-plane-meets-is-listed", z3.Not(meets), "P")
+
+
 def tasks(tier):
     from props.mandoline_parents import parent_tasks
     from props.mandoline_boxes import box_tasks
     from props.mandoline_parents import kernel_tasks2
-    return kernel_tasks("C16", ["expand"]) + [Chunking(), WriteLevel(0, 1), WriteLevel(1, 1)] + parent_tasks("C16") + box_tasks("C16", ["slice"])[:1 if tier == "quick" else 3] + \
+    return kernel_tasks("C16", ["expand"]) + [Chunking(), WriteLevel(0, 1), WriteLevel(1, 1), BoxListed(0), BoxListed(2)] + parent_tasks("C16") + box_tasks("C16", ["slice"])[:1 if tier == "quick" else 3] + \
         kernel_tasks2("C16", ("bylevel",)) + __import__("props.roundtrip", fromlist=["slice_header_tasks"]).slice_header_tasks(tier)
 
 
